@@ -48,6 +48,7 @@ type c05Params struct {
 	dupDelay bool
 	apps     int  // concurrent application goroutines sharing the outbound telegrams (default 1)
 	ackFails int  // socket writes of the client's acknowledgements that may fail (transient error)
+	refuse   bool // the gateway may refuse an in-sequence telegram: it counts it, does not put it on the bus and answers with an error status
 	reconn   bool // after the first telegram in each direction the gateway ends the connection and accepts the reconnect (numbering restarts)
 	away     int  // the application does not read Inbound during the first away ms (longer than every timeout of the client)
 }
@@ -102,6 +103,14 @@ func c05Run(p c05Params) func() {
 					id := MsgID(req.Payload)
 					switch req.SeqNumber {
 					case gExp:
+						if p.refuse && !quietNet && mc.Choose(2, mc.Fault) == 1 {
+							// refused (e.g. the bus is down): counted, not forwarded, negative acknowledgement;
+							// a repetition of it is answered like any repetition
+							mc.Log(GwSeen{id, req.SeqNumber, false, false})
+							gExp++
+							toClient(&knxnet.TunnelRes{Channel: ch, SeqNumber: req.SeqNumber, Status: knxnet.ErrTunnellingLayer})
+							return
+						}
 						mc.Log(GwSeen{id, req.SeqNumber, true, false})
 						mc.Log(Bus{id, req.SeqNumber})
 						gExp++
@@ -399,6 +408,11 @@ func init() {
 	// the application is away for longer than the response timeout while acknowledged telegrams wait
 	aw := c05Params{R: 100, T: 150, out: 1, in: 3, away: 1000}
 	register("both", &h.Scenario{Name: "C05-direct-1out-3in-application-away-1s-F2", Prop: "C05", P: 0, F: 2, D: -1, Run: c05Run(aw), Check: c05Oracle(aw)})
+	// (refuse is not used by a registered scenario: a gateway that counts a telegram but answers with
+	// an error status is outside the statement's gateway - "accept the expected sequence number" -
+	// and what it answers to the repetition of a refused telegram is not defined there; with
+	// "status 0" the pinned client reports success for a telegram that never reached the bus, which is
+	// the gateway's doing. How the client treats error statuses is C03's subject.)
 	// a reconnect in the middle of the stream: numbering restarts in both directions
 	rc := c05Params{R: 100, T: 150, out: 3, in: 3, reconn: true}
 	register("both", &h.Scenario{Name: "C05-direct-3out-3in-reconnect-after-first-F2", Prop: "C05", P: 0, F: 2, D: -1, Run: c05Run(rc), Check: c05Oracle(rc)})
